@@ -43,7 +43,13 @@ class OZOptics_DD100MC(QMI_Instrument):
     def open(self) -> None:
         _logger.info("Opening connection to %s", self._name)
         self._transport.open()
-        self._transport.discard_read()
+        try:
+            self._transport.discard_read()
+        except Exception:
+            # Close the transport if an error occurred during initialization
+            # of the instrument.
+            self._transport.close()
+            raise
         super().open()
 
     @rpc_method
